@@ -80,7 +80,9 @@ def ser_value(v, floats):
         return b"\x01"
     if isinstance(v, str):
         return b"\x02" + ser_n(2, len(v)) + b"".join(ser_n(3, ord(c)) for c in v)
-    raise TypeError("unserialisable value %r" % (v,))
+    # anything else (None, bytes, a tuple ...) is not a value the decoder may produce: a tag the model never produces, so that the
+    # case shows up as a disagreement with its input instead of crashing the driver
+    return b"\xfe" + ser_n(2, len(type(v).__name__)) + type(v).__name__.encode()
 
 
 def ser_attrs(items, floats):
